@@ -89,6 +89,12 @@ unsafe impl Exfiltrator for WithRawSiginfo {
     }
 
     fn init(&self, slot: &Self::Storage, _: c_int) {
+        // The slot may be initialized already: if registering the signal failed the last time,
+        // adding the same signal is attempted (and this gets called) again. The channel must
+        // stay in place then, as a signal handler may already be holding a pointer to it.
+        if !slot.0.load(Ordering::Acquire).is_null() {
+            return;
+        }
         let new = Box::default();
         let old = slot.0.swap(Box::into_raw(new), Ordering::Release);
         // We leak the pointer on purpose here. This is invalid state anyway and must not happen,
